@@ -763,6 +763,9 @@ def add_mol_cases(batch, name, mol, sample=False):
             return f'pack outcome: model {res[0]} {str(res[1])[:60]} real {rp[0]} {str(rp[1])[:60]} [{name}]'
         return None
     batch.add('pack', 'pack', req, c_pack, nt)
+    if len(mol._atoms) <= 1500:
+        # the same real bytes against `packFull`: terminals from the MODEL's perception, nothing taken from chython
+        batch.add('pack-full', 'packf', req, c_pack, nt)
     lim = struct_limits(mol)
     ctx.dist('within-format-limits' if lim else 'outside-format-limits')
 
@@ -832,6 +835,9 @@ def add_mol_cases(batch, name, mol, sample=False):
             return None
         batch.add('centers-hypothesis', 'cok', oreq + req, c_cok, nt)
     batch.add('unpack+attach', 'unpacka', creq + data, c_unpacka, nt)
+    if len(mol._atoms) <= 1500:
+        # `unpackFull`: the centres dictionary is perceived by the model on the decoded molecule
+        batch.add('unpack-full', 'unpackf', data, c_unpacka, nt)
 
     try:
         rl = ('ok', [MoleculeContainer.pack_len(bytes(data), compressed=False)])
